@@ -422,6 +422,9 @@ def check(prog, run):
                                "%s reports an unknown type there: a document referring to an undefined type passes (or crashes) "
                                "validation" % (cname, slot, cname))
 
+    # ---- A1 document lists are never paired by position
+    check_positional_pairing(prog, run, "A1")
+
 
 def closure_breaks(prog, run, r, fns):
     """In a reachability closure (worklist `while` / recursive search over successors) an element that is already
@@ -577,3 +580,59 @@ def symmetric_comparisons(prog, run, r):
                 if heterogeneous and sd[0] != sd[1] and (sd[1], sd[0]) not in sset:
                     run.report(r, "%s:%s:asymmetric(%s:%s)" % (modname, fname, callee, sd), f.where(),
                                "%s applies %s to sides %s but never to %s" % (fname, callee, sd, (sd[1], sd[0])))
+
+
+def check_positional_pairing(prog, run, rule_id):
+    """Two lists of document nodes are never paired by position."""
+    import ast as _a
+    from .. import boolx
+    r = run.rule(rule_id, "validation/**: `zip(A, B)` never pairs two lists taken from the document (parameters annotated as lists of "
+                          "AST nodes, or `.arguments` / `.fields` / `.directives` / `.selections` of nodes) by position: on every "
+                          "execution both operands are order-normalised first (`sorted(...)` by name) — the order in which arguments "
+                          "are written must not change the verdict", 1)
+    n = 0
+    for f in prog.all_funcs():
+        if not f.module.name.startswith("py_gql.validation") or isinstance(f.node, _a.Lambda):
+            continue
+        zips = [c for c in _a.walk(f.node) if isinstance(c, _a.Call) and isinstance(c.func, _a.Name) and c.func.id == "zip" and len(c.args) == 2]
+        if not zips:
+            continue
+        a = f.node.args
+        listy = set()
+        for p in a.posonlyargs + a.args + a.kwonlyargs:
+            ann = _a.unparse(p.annotation) if p.annotation is not None else ""
+            if ann.startswith(("List[", "Sequence[", "Iterable[")) and "_ast." in ann:
+                listy.add(p.arg)
+        try:
+            _ev, exits = boolx.walk_under(f.node, lambda t: None)
+        except ValueError as e:
+            raise AnalysisError("C06.%s: %s" % (rule_id, e))
+        reported = set()
+        for z in zips:
+            holder = z
+            while holder is not None and not isinstance(holder, _a.stmt):
+                holder = getattr(holder, "_parent", None)
+            raw_paths = 0
+            paths = 0
+            for kind, st, env in exits:
+                stmts = env.get(boolx.STMTS, ())
+                if holder not in stmts and holder is not st:
+                    continue
+                paths += 1
+                penv = boolx.path_env(stmts, holder)
+                for arg in z.args:
+                    v = boolx.path_subst(arg, penv)
+                    raw = (isinstance(v, _a.Name) and v.id in listy) or (
+                        isinstance(v, _a.Attribute) and v.attr in ("arguments", "fields", "directives", "selections", "values"))
+                    if raw:
+                        raw_paths += 1
+                        if id(z) not in reported:
+                            reported.add(id(z))
+                            run.report(r, "%s:%s:positional-pairing(%s)" % (f.module.name, f.qualname, _a.unparse(v)[:30]), f.where(z),
+                                       "%s pairs `%s` with the other list by position on some execution (not sorted first): the same "
+                                       "arguments written in another order are compared crosswise and reported as different"
+                                       % (f.qualname, _a.unparse(v)[:40]))
+            n += 1
+            r.instance("%s: `%s` reached on %d executions, raw operand on %d" % (f.qualname, " ".join(_a.unparse(z).split())[:50], paths, raw_paths))
+    if not n:
+        raise AnalysisError("C06.%s: no zip() pairing found under validation/" % rule_id)
